@@ -666,7 +666,7 @@ func (s *Server) cmdSET(msg *Message) (resp.Value, commandDetails, error) {
 			}
 			exval := args[i+1]
 			i += 1
-			x, err := strconv.ParseFloat(exval, 64)
+			x, err := parseFloat(exval)
 			if err != nil {
 				return retwerr(errInvalidArgument(exval))
 			}
@@ -737,17 +737,17 @@ func (s *Server) cmdSET(msg *Message) (resp.Value, commandDetails, error) {
 			if i+1 < len(args) {
 				// probe for possible z coordinate
 				var err error
-				z, err = strconv.ParseFloat(args[i+1], 64)
+				z, err = parseFloat(args[i+1])
 				if err == nil {
 					hasZ = true
 					i++
 				}
 			}
-			y, err := strconv.ParseFloat(slat, 64)
+			y, err := parseFloat(slat)
 			if err != nil {
 				return retwerr(errInvalidArgument(slat))
 			}
-			x, err := strconv.ParseFloat(slon, 64)
+			x, err := parseFloat(slon)
 			if err != nil {
 				return retwerr(errInvalidArgument(slon))
 			}
@@ -763,7 +763,7 @@ func (s *Server) cmdSET(msg *Message) (resp.Value, commandDetails, error) {
 			var vals [4]float64
 			for j := 0; j < 4; j++ {
 				var err error
-				vals[j], err = strconv.ParseFloat(args[i+1+j], 64)
+				vals[j], err = parseFloat(args[i+1+j])
 				if err != nil {
 					return retwerr(errInvalidArgument(args[i+1+j]))
 				}
@@ -876,6 +876,17 @@ func retwerr(err error) (resp.Value, commandDetails, error) {
 }
 func retrerr(err error) (resp.Value, error) {
 	return resp.Value{}, err
+}
+
+// parseFloat parses a finite floating-point argument. strconv.ParseFloat also
+// accepts "nan", "inf" and "infinity"; those are neither valid coordinates,
+// distances or durations nor representable as JSON numbers in a reply.
+func parseFloat(s string) (float64, error) {
+	v, err := strconv.ParseFloat(s, 64)
+	if err == nil && (math.IsNaN(v) || math.IsInf(v, 0)) {
+		return 0, strconv.ErrSyntax
+	}
+	return v, err
 }
 
 // FSET key id [XX] field value [field value...]
@@ -1065,7 +1076,7 @@ func (s *Server) cmdEXPIRE(msg *Message) (resp.Value, commandDetails, error) {
 		return retwerr(errInvalidNumberOfArguments)
 	}
 	key, id, svalue := args[1], args[2], args[3]
-	value, err := strconv.ParseFloat(svalue, 64)
+	value, err := parseFloat(svalue)
 	if err != nil {
 		return retwerr(errInvalidArgument(svalue))
 	}
